@@ -2623,13 +2623,25 @@ func ruleLookup(c *Ctx) {
 		{
 			c.site(1)
 			refusal := ""
+			chainsOf := c.regionFuncChains(fn, nil)
 			for _, f := range c.regionFuncChainsList(fn) {
 				if pkgOfFunc(f) != pkgOfFunc(fn) {
 					continue
 				}
 				// the function itself and helpers split off from it; the flag getters and the other named steps of the
-				// reviewed tree have refusals of their own, judged by their own rules
+				// reviewed tree have refusals of their own, judged by their own rules - and so have the helpers those call
 				if _, reviewed := anchorSigs["cmd|"+f.Name()]; reviewed && f != fn {
+					continue
+				}
+				viaReviewed := false
+				for _, site := range chainsOf[f] {
+					if p := site.Parent(); p != nil && p != fn {
+						if _, reviewed := anchorSigs["cmd|"+p.Name()]; reviewed {
+							viaReviewed = true
+						}
+					}
+				}
+				if viaReviewed {
 					continue
 				}
 				for _, r := range returnsOf(f) {
